@@ -18,6 +18,17 @@ const (
 	unknownAssoc // the statement does not say: parentheses are never dropped between two of them
 )
 
+// ternaryChainsGroupRight: an unparenthesised chain  a ? b : c ? d : e  (a ?: b ? c : d, ...) is
+// demanded to mean  a ? b : (c ? d : e).  The statement's table names ?: as one level without an
+// associativity, exactly as it does for ?? and for the left-associative binary levels, whose
+// chains this check has always resolved by "the language's operator table": origami's parser
+// builds the else-branch by right recursion (the anchored "one function per level" mechanism), as
+// every language with this operator does; the only other dialects are PHP <= 7 (groups to the left,
+// deprecated in 7.4 and removed as a defect) and PHP 8 (rejects the chain). Grouping to the right
+// or REJECTING the chain at parse time are both accepted; silently grouping to the left is not.
+// Set to false to make chains of ?: open again (their parentheses are then always kept).
+const ternaryChainsGroupRight = true
+
 type opClass struct {
 	name  string
 	level int // bigger = tighter; concat handled separately
@@ -39,7 +50,7 @@ var (
 	clsLand     = &opClass{"and", 6, left}
 	clsLor      = &opClass{"or", 5, left}
 	clsCoalesce = &opClass{"coalesce", 4, right}
-	clsTernary  = &opClass{"ternary", 3, unknownAssoc}
+	clsTernary  = &opClass{"ternary", 3, right} // see ternaryChainsGroupRight
 	clsAssign   = &opClass{"assign", 2, right}
 	clsConcat   = &opClass{"concat", -1, left}
 )
@@ -246,13 +257,15 @@ func needParens(parent *node, pos int, child *node) need {
 			return parens
 		}
 		if p.kind == kTernary && pos == 1 {
-			if c.kind == kTernary || c.kind == kElvis {
-				return parens // accepted without by every dialect, but not something the table states
-			}
-			return noParens // delimited by ? and :
+			// delimited by ? and : - there is only one way to read  a ? b ? c : d : e  and
+			// a ? b ?: c : d , so parentheses around a nested conditional are redundant here
+			return noParens
 		}
 		if c.kind == kTernary || c.kind == kElvis {
-			return parens // associativity of ?: is not stated
+			if pos == last && ternaryChainsGroupRight {
+				return noParens // else-branch: a ? b : c ? d : e  is  a ? b : (c ? d : e)
+			}
+			return parens // a conditional as the condition of another one needs them
 		}
 		return noParens // everything else is tighter than ?:
 	}
@@ -382,6 +395,13 @@ func (n *node) pr(st style, lt leafText, parent *node, pos int) string {
 	return s
 }
 
+func isCond(o *opDef) bool { return o.kind == kTernary || o.kind == kElvis }
+
+// chainEdge: a conditional in the else-branch of a conditional (the edge a non-associative dialect rejects).
+func (e edge) chainEdge() bool {
+	return isCond(e.child.op) && isCond(e.parent.op) && e.pos == len(e.parent.kids)-1
+}
+
 // negLiteral: prefix minus applied directly to an int leaf.
 func negLiteral(n *node) bool {
 	return n.op != nil && n.op.kind == kPrefix && n.op.sym == "-" && n.kids[0].op == nil && n.kids[0].t == tI
@@ -466,6 +486,10 @@ func regroup(root *node, e edge) *node {
 		alt = mk(c, mk(p, c.kids[0], p.kids[1], p.kids[2]))
 	case c.op.kind == kBinary && p.op.kind == kAssign:
 		alt = mk(c, mk(p, c.kids[0]), c.kids[1])
+	case isCond(c.op) && isCond(p.op) && pos == len(p.kids)-1:
+		// the left-associative reading of a chain: (a ? b : c) ? d : e,  (a ?: c) ? d : e, (a ? b : c) ?: e
+		inner := append(append([]*node{}, p.kids[:pos]...), c.kids[0])
+		alt = mk(c, append([]*node{mk(p, inner...)}, c.kids[1:]...)...)
 	}
 	if alt == nil {
 		return nil
